@@ -11,11 +11,43 @@ from .core import DONE
 from .scenario import Violation
 
 _COUNTER = [0]
+_NS = {"tried": False, "ok": False}
+NS_MOUNT = "/dev/shm/wdsim-ns"
+
+
+def _enter_private_namespace():
+    """Give this process a private mount namespace with its own tmpfs at a FIXED path.
+
+    The scratch tree then has the same absolute path string in every process and for every run.  That matters for
+    determinism: the polling emitter iterates sets of full path strings, whose order depends on the string hashes, so a
+    path containing a pid or a counter made the order of events inside one poll - and with it the schedule - depend on
+    which process ran the case and on how many cases it had run before (found by selftest-determinism)."""
+    import ctypes
+
+    try:
+        libc = ctypes.CDLL(None, use_errno=True)
+        os.makedirs(NS_MOUNT, exist_ok=True)
+        os.unshare(os.CLONE_NEWNS)
+        ms_rec, ms_private = 16384, 1 << 18
+        if libc.mount(None, b"/", None, ms_rec | ms_private, None) != 0:
+            return False
+        if libc.mount(b"tmpfs", NS_MOUNT.encode(), b"tmpfs", 0, b"size=1g") != 0:
+            return False
+        return True
+    except (OSError, AttributeError, PermissionError):
+        return False
 
 
 def scratch_top():
     from .runner import scratch_base
 
+    if not _NS["tried"]:
+        _NS["tried"] = True
+        _NS["ok"] = _enter_private_namespace()
+    if _NS["ok"]:
+        top = NS_MOUNT + "/fs"
+        shutil.rmtree(top, ignore_errors=True)
+        return top
     _COUNTER[0] += 1
     return os.path.join(scratch_base(), f"fs-{os.getpid()}-{_COUNTER[0]}")
 
